@@ -60,7 +60,7 @@ Next == Step
 
 \* ---- clauses, evaluated on the event just consumed; memoBefore is what
 \* ---- memo held before it (the event itself may just have been added)
-FailedEvent(r, e, seenBefore, previous) ==
+FailedEvent(r, e, seenBefore, previous, okBefore, raisedBefore) ==
   IF e.kind = "construct"
   THEN (IF e.raised = "" THEN {} ELSE {"construction_raised"})
        \* building a decoder reads the channel (matching weights, priors): it
@@ -84,16 +84,23 @@ FailedEvent(r, e, seenBefore, previous) ==
       THEN {} ELSE {"same_syndrome_same_correction_whatever_the_history"})
 \cup (IF e.raised # "" \/ e.syn_intact THEN {} ELSE {"caller_syndrome_not_modified"})
 \cup (IF e.raised # "" \/ e.tables_intact THEN {} ELSE {"noise_tables_not_modified"})
+     \* whether a syndrome can be decoded at all does not depend on the history either
+     \* (randomised decoders included: "validity is history-independent")
+\cup (IF (e.raised # "" /\ okBefore) \/ (e.raised = "" /\ raisedBefore)
+      THEN {"whether_a_syndrome_is_decoded_does_not_depend_on_the_history"} ELSE {})
 
 \* judgement of the event at position l (memo already includes it; it was
 \* "seen before" iff an earlier decode event has the same syndrome)
 SeenBefore == \E j \in 1..(l - 1) : /\ Evs(tid)[j].kind = "decode" /\ Evs(tid)[j].raised = ""
                                     /\ Key(Evs(tid)[j]) = Key(Ev)
+RaisedBefore == \E j \in 1..(l - 1) : /\ Evs(tid)[j].kind = "decode" /\ Evs(tid)[j].raised # ""
+                                      /\ Key(Evs(tid)[j]) = Key(Ev)
 Judged ==
   l = 0 \/
     LET r == Recs[tid]
         f == FailedEvent(r, Ev, Ev.kind = "decode" /\ SeenBefore,
-                         IF Ev.kind = "decode" /\ Key(Ev) \in DOMAIN memo THEN memo[Key(Ev)] ELSE IdOp)
+                         IF Ev.kind = "decode" /\ Key(Ev) \in DOMAIN memo THEN memo[Key(Ev)] ELSE IdOp,
+                         Ev.kind = "decode" /\ SeenBefore, Ev.kind = "decode" /\ RaisedBefore)
     IN f = {} \/ PrintT(<<"REJECT", r.id, { c \o "@" \o ToString(l) : c \in f }>>)
 
 Post == PrintT(<<"CHECKED", TLCGet("distinct") - NRecs>>)
